@@ -259,9 +259,19 @@ def nudge(z, d):
 def pick(zs, i: int):
     return zs[i]
 
+@move
+def choose(flag: bool, x, y):
+    if flag:
+        return x
+    return y
+
 @move{opts}
 def kern(b: bool, n: int):
     a = spec.get_static_trap(zone_id="A")
+    c = choose(b, a, spec.get_static_trap(zone_id="B"))
+    cv = c[0:1, :]
+    c2 = choose(flag=b, y=a, x=spec.get_static_trap(zone_id="B"))
+    cw = grid.sub_grid(c2, [0], [0])
     if b:
         x = spec.get_static_trap(zone_id="B")
     else:
@@ -280,7 +290,7 @@ def kern(b: bool, n: int):
     for k in range(n):
         u = away()
     t = u[:, 0:1]
-    return (x, y, w, v, u, t, p, q)
+    return (x, y, w, v, u, t, p, q, c, cv, c2, cw)
 '''
 
 
